@@ -1,10 +1,14 @@
 import Driver.Sess
+import Driver.Facet
 import Driver.Field
+import Driver.Keyword
 import Driver.Widcode
 open Driver
 
 def sessions : List (String × Sess) := [
+  ("facet", FacetS.sess),
   ("field", FieldS.sess),
+  ("keyword", KeywordS.sess),
   ("widcode", WidcodeS.sess)
 ]
 
